@@ -167,14 +167,20 @@ def regsweep_shard(shard):
     for i, (reg, k, prog) in enumerate(c02.regsweep_programs()):
         if i % parts != part:
             continue
-        ref, bad = pipecmp.lockstep(prog, c02.REGSWEEP_REGS, c02.REGSWEEP_WORDS, 60, hazard, WANT)
-        p.evaluations += 1
-        p.traces += 1
-        p.transitions += ref.cyc
-        p.nontrivial += 1
-        p.counters["dependency-through-every-register"] += 1
-        for f, d in bad:
-            p.violation(dict(oracle=oracle, field=f), pipecmp.case_of(prog, c02.REGSWEEP_REGS, c02.REGSWEEP_WORDS, 60, hazard), f"[{rv.prog_text(prog)}] hazard_detection={hazard}: {d}", size=(len(prog), reg, k))
+        # three ways of getting the simulation: the usual constructor; a state built on its own and handed over; the usual
+        # constructor with a second five-stage simulation of the opposite hazard switch created afterwards
+        for style in ("plain", "via-state", "neighbour"):
+            ref, bad = pipecmp.lockstep(prog, c02.REGSWEEP_REGS, c02.REGSWEEP_WORDS, 60, hazard, WANT, style=style)
+            p.evaluations += 1
+            p.traces += 1
+            p.transitions += ref.cyc
+            p.nontrivial += 1
+            p.counters["dependency-through-every-register"] += 1
+            p.counters["simulation-built-" + style] += 1
+            for f, d in bad:
+                c = pipecmp.case_of(prog, c02.REGSWEEP_REGS, c02.REGSWEEP_WORDS, 60, hazard)
+                c["style"] = style
+                p.violation(dict(oracle=oracle, field=f, style=style), c, f"[{rv.prog_text(prog)}] hazard_detection={hazard}, simulation built '{style}': {d}", size=(len(prog), reg, k))
     return p
 
 
@@ -202,11 +208,11 @@ def long_shard(shard):
 
 
 def replay(case):
-    if case.get("kind") == "penalty":
+    if case.get("kind") in ("penalty", "penalty-loaded"):
         from vf.checks import c07_penalty
         return c07_penalty.replay(case)
     prog, regs, words, maxc, hazard = pipecmp.case_args(case)
-    _ref, bad = pipecmp.lockstep(prog, regs, words, maxc, hazard, WANT)
+    _ref, bad = pipecmp.lockstep(prog, regs, words, maxc, hazard, WANT, style=case.get("style", "plain"))
     res = [(sig(f), f"[{rv.prog_text(prog)}]: {d}") for f, d in bad]
     if not res:
         # fixed-point cases compare (address, cycle) retirements only; lockstep covers those as well
